@@ -269,7 +269,8 @@ func VerifLemma_C13D_BarePrefix() {
 	ctx := context.Background()
 	p := vcShapePath(verifParam("PATH"))
 	b := newBucket(map[string]*internal.ImmutableObject{p: internal.NewImmutableObject(p, "", "", []byte(vcInsideData))})
-	s := verifNondetString(verifParam("ARG"))
+	arg := verifParam("ARG")
+	s := verifNondetStringN((arg + 1 - verifNondetChoice(arg+1)) % (arg + 1)) // shortest prefixes first, see storageutil harness
 	key, valid := refCKey(s)
 	verifCover("state and prefix")
 	if verifNondetBool() {
